@@ -81,9 +81,9 @@ func planFor(prop, tier string) plan {
 		p.f1Full, p.f1Stride = len(p.cfgs), 1
 		if quick {
 			p.f1Lim = [][2]uint64{{5, 9}}
-			p.f1Full, p.f1Stride = 3, 6
+			p.f1Full, p.f1Stride = 2, 8
 			// put three diverse configurations first
-			p.cfgs = append([]tablegen.Cfg{{}, {SHA256: true, ExactMsg: true, BlockSize: 256}, {Unaligned: true, BlockSize: 128, Restart: 2}}, p.cfgs...)
+			p.cfgs = append([]tablegen.Cfg{{}, {Unaligned: true, BlockSize: 128, Restart: 2}, {SHA256: true, ExactMsg: true, BlockSize: 256}}, p.cfgs...)
 		} else {
 			// full F1 on every boolean combination x {128, default} block size; the rest of the grid strided
 			var lead, rest []tablegen.Cfg
@@ -159,7 +159,7 @@ func main() {
 		go func(i int) {
 			defer wg.Done()
 			cmd := exec.Command(self, "--property", *prop, "--tier", *tier, "--worker", fmt.Sprintf("%d/%d", i, N))
-			cmd.Env = append(os.Environ(), "GOMAXPROCS=2")
+			cmd.Env = append(os.Environ(), "GOMAXPROCS=1")
 			out, err := cmd.CombinedOutput()
 			r := newResult()
 			ok := false
